@@ -88,6 +88,12 @@ func cmdDRun(args []string) error {
 		defMax := 1 + r.intn(3)
 		// one route, 1-3 targets; the first may carry its own retry budget, later ones may not (they take the default)
 		nt := 1 + r.intn(3)
+		// run 0 is the long one: more than a thousand messages to one target on the memory store (its internal order list is
+		// compacted while messages are in flight), the last ones failing before they succeed
+		bulk := run == 0
+		if bulk {
+			nt = 1
+		}
 		type tspec struct {
 			url string
 			max int
@@ -139,14 +145,22 @@ func cmdDRun(args []string) error {
 		}
 		var msgs []*mspec
 		nm := 2 + r.intn(6)
+		if bulk {
+			nm = 1100
+		}
 		for i := 0; i < nm; i++ {
 			for _, ts := range targets {
 				m := &mspec{ID: fmt.Sprintf("e%d", i), Target: ts.url, Max: ts.max}
 				// some transient failures, then something decisive (or failures beyond the budget)
-				for k := 0; k < r.intn(ts.max+3); k++ {
+				for k := 0; k < r.intn(ts.max+3) && !bulk; k++ {
 					m.Beh = append(m.Beh, pick(r, transient))
 				}
-				if r.chance(80) {
+				if bulk {
+					if i >= 600 && i%2 == 0 {
+						m.Beh = append(m.Beh, pick(r, transient))
+					}
+					m.Beh = append(m.Beh, dres{Res: "status", N: 200})
+				} else if r.chance(80) {
 					m.Beh = append(m.Beh, pick(r, terminal))
 				}
 				if m.Beh == nil {
@@ -181,6 +195,9 @@ func cmdDRun(args []string) error {
 		d := &dispatcher.PushDispatcher{Store: store, Deliverer: dl, Routes: routes, MaxWait: 20 * time.Millisecond}
 		d.Start()
 		deadline := time.Now().Add(8 * time.Second)
+		if bulk {
+			deadline = time.Now().Add(30 * time.Second)
+		}
 		for time.Now().Before(deadline) {
 			st, err := store.Stats()
 			if err == nil && st.ByState[queue.StateQueued]+st.ByState[queue.StateLeased] == 0 {
